@@ -1143,7 +1143,10 @@ class Curve(BaseCurve):
         if nodes is None:
             umin, umax = self.knotvector.limits
             cls = Fraction if isinstance(umin, (int, Fraction)) else float
-            nodes_0to1 = heavy.NodeSample.closed_linspace(len(points), cls)
+            if len(points) == 1:  # A single point: sampled at the middle
+                nodes_0to1 = (cls(1) / 2,)
+            else:
+                nodes_0to1 = heavy.NodeSample.closed_linspace(len(points), cls)
             nodes = tuple((1 - node) * umin + node * umax for node in nodes_0to1)
         knotvector = tuple(self.knotvector)
         nodes = tuple(nodes)
